@@ -402,7 +402,7 @@ def materialise(scn, wd):
             os.utime(os.path.join(wd, f.path), (f.mtime, f.mtime))
 
 
-def execute(scn, plan, keep=False, wall_cap=30.0, binary=None, want_trace=True, retry=True):
+def execute(scn, plan, keep=False, wall_cap=30.0, binary=None, want_trace=True, retry=True, retry_cap=None):
     """Run one simulated execution. Returns Result. The run directory is removed unless keep.
 
     A run that hits the wall-clock cap is re-run once *in isolation* (one such re-run at a time across all
@@ -414,7 +414,7 @@ def execute(scn, plan, keep=False, wall_cap=30.0, binary=None, want_trace=True, 
         os.makedirs(scratch_root(), exist_ok=True)
         with open(os.path.join(scratch_root(), ".retry.lock"), "w") as lk:
             fcntl.flock(lk, fcntl.LOCK_EX)
-            res = _execute_once(scn, plan, keep, max(60.0, 3 * wall_cap), binary, want_trace)
+            res = _execute_once(scn, plan, keep, retry_cap or max(60.0, 3 * wall_cap), binary, want_trace)
     return res
 
 
